@@ -982,6 +982,15 @@ def judge(U, tree):
                         distance_on_circle=fstr(dist), allowed=fstr(SLACK * tol), got=g, got_sys=list(rs), op="%")
                 return {"outcome": "bad", "counts": counts, "bad": bad, "ref": ref, "info": info}
             worst = max(worst, float(dist / tol))
+            # the remainder of exact arithmetic (the floor-modulo Python defines for numbers) lies between 0 and the modulus
+            # and takes the modulus' sign: a value that is right on the circle but on the wrong side of 0 is wrong
+            gsi = Fr(g) * sc
+            if rr != 0 and min(abs(rr), circ - abs(rr)) > SLACK * tol:
+                c("mod_sign_checks")
+                if (gsi > 0) != (rr > 0) and abs(gsi) > SLACK * tol:
+                    witness("modulo value has the wrong sign (it must take the sign of the modulus)", index=i, expected_si=fstr(rr),
+                            got_si=fstr(gsi), modulus_si=fstr(circ), got=g, op="%")
+                    return {"outcome": "bad", "counts": counts, "bad": bad, "ref": ref, "info": info}
         if judged:
             c("value_agreements")
             c("mod_agreements")
